@@ -15,6 +15,7 @@ pub fn run(cx: &mut Ctx) {
         Ok(g) => g,
         Err(e) => return cx.anchor_missing("C04", &e),
     };
+    crate::rules::grammar_rules::expr_wiring(cx, &g, "C04.E1");
     validators_called(cx, &g);
     consumer_graph(cx, &g);
     validator_bodies(cx);
